@@ -189,9 +189,35 @@ def rule_2(ctx):
     ctx.floor(1, 'insertions into shared collections')
 
 
+def _on_the_recursion(ctx):
+    """Functions through which an exception of a nested cell evaluation travels upwards: the evaluator, the node classes, the
+    argument-validating wrapper around every registered function, the thunk class and the functions that call thunks."""
+    seen = set()
+    out = []
+
+    def add(m, qual, fn):
+        if id(fn) not in seen:
+            seen.add(id(fn))
+            out.append((m, qual, fn))
+    for m, qual, fn in evalcore.recursion_functions(ctx):
+        add(m, qual, fn)
+    for modname in ('evaluator', 'ast_nodes', 'xlfunctions.xl'):
+        m = ctx.mod(modname)
+        for qual, fn in m.funcs.items():
+            add(m, qual, fn)
+    fm = ctx.mod('xlfunctions.func_xltypes')
+    for qual, fn in fm.funcs.items():
+        if qual.startswith('Expr.') or qual.startswith('ValueExpr.'):
+            add(fm, qual, fn)
+    for f in ctx.a.registry:
+        if any('XlExpr' in (ast.unparse(p.annotation) if getattr(p, 'annotation', None) is not None else '') for p in f.params):
+            add(f.module, f.node.name, f.node)
+    return out
+
+
 def rule_3(ctx):
     n = 0
-    for m, qual, fn in evalcore.recursion_functions(ctx):
+    for m, qual, fn in _on_the_recursion(ctx):
         for t in walk_local(fn):
             if not isinstance(t, ast.Try):
                 continue
